@@ -551,7 +551,7 @@ def k_cookies(ctx: Any, m: Any, n: int) -> None:
             for kind, ck in variants:
                 now = t + rng.choice([0, 0, 1, 599, 600, 601, -1, -600, 10**6, -(10**6)])
                 max_age = rng.choice([600, 600, 600, 0, -1, 1])
-                m.time = FakeTime(now + rng.choice([0.0, 0.5, 0.999]) if abs(now) < 2**50 else now)
+                m.time = FakeTime(now + rng.choice([0.0, 0.5, 0.999]) if 0 <= now < 2**50 else now)
                 iu = impl_unpack(m, ck, skey, max_age)
                 mu = model_unpack(dcall(ctx, "C37.unpack", {"key": b2j(skey), "now": now, "maxAge": max_age, "cookie": s2j(ck)}))
                 c2 = {"k": "unpack", "kind": kind, "cookie": ck if len(ck) < 400 else ck[:60] + f"…({len(ck)})", "t": t, "now": now, "max_age": max_age}
